@@ -29,7 +29,8 @@ func (ws *Hoffman) Get(ctx context.Context, proxy string, hash []byte,
 	v := nurl.Values{}
 	v.Add("info_hash", string(hash))
 	v.Add("piece", fmt.Sprintf("%v", index))
-	v.Add("ranges", fmt.Sprintf("%v-%v", offset, offset+length))
+	// ranges are inclusive (BEP 17)
+	v.Add("ranges", fmt.Sprintf("%v-%v", offset, offset+length-1))
 	url.RawQuery = v.Encode()
 
 	req, err := http.NewRequest("GET", url.String(), nil)
